@@ -261,6 +261,17 @@ func ruleInMemEntriesFresh(e *Engine, r *Report) {
 		}
 		return false
 	}
+	// the function the rule trusts to hand out a fresh copy does allocate: every
+	// slice it returns is make()/append onto make(), never recycled memory that
+	// earlier hand-outs (entries to save / to apply / Replicate messages) alias
+	forEachInstr(fresh, func(in ssa.Instruction) {
+		ret, ok := in.(*ssa.Return)
+		if !ok || len(ret.Results) == 0 {
+			return
+		}
+		r.check(isFreshSliceValue(retOperand(ret, 0), 0), "OWN-inmem-entries", "newEntrySlice returns freshly allocated memory", e.ipos(in),
+			"make() or append onto make()", "newEntrySlice can return a slice that is not freshly allocated ("+e.describeValue(retOperand(ret, 0))+"): slices handed out earlier (entries to save, to apply, in Replicate messages) share that memory and are overwritten")
+	})
 	n := 0
 	for _, w := range e.FieldWrites(entries) {
 		if w.Kind != "store" {
